@@ -52,6 +52,8 @@ def run(ctx):
     stream_reset(ctx, "C05.9")
     unget_position(ctx)
     delivery_rules(ctx)
+    from .c06 import bom_read_and_seek
+    bom_read_and_seek(ctx, "C05.13", "C05.14")
     r.rule("C05.1", "CR LF replacement precedes lone CR replacement on the same variable", floor=1)
     r.rule("C05.2", "carry-over stores are paired (buffer<->truncate, re-inject<->clear)", floor=2)
     r.rule("C05.3", "every non-empty read evaluates the trailing-CR / lead-surrogate test before normalisation", floor=2)
@@ -405,6 +407,9 @@ def thorough(ctx):
 def mutants():
     from ..selftest import TextMutant as T
     return [
+        T("bom-single-read", "_inputstream.py", "        while len(string) < 4:\n            more = self.rawStream.read(4 - len(string))\n            if not more:\n                break\n            string += more\n", "", "C05.14"),
+        T("bom-seek-constant", "_inputstream.py", "        encoding = None\n        seek = 0\n        for bom, name in bomDict.items():\n            if string.startswith(bom):\n                encoding = name\n                seek = len(bom)\n                break\n",
+          "        encoding = bomDict.get(string[:3])\n        seek = 3\n        if not encoding:\n            encoding = bomDict.get(string[:2])\n            seek = 2\n", "C05.13"),
         T("skip-empty-reads", REL, "        self.buffer.append(data)\n        self.position[0] += 1\n        self.position[1] = len(data)\n        return data", "        if data:\n            self.buffer.append(data)\n            self.position[0] += 1\n            self.position[1] = len(data)\n        return data", "C05.7"),
         T("counters-init-only", REL, "        # number of (complete) lines in previous chunks\n        self.prevNumLines = 0\n        # number of columns in the last line of the previous chunk\n        self.prevNumCols = 0\n\n        # Deal with CR LF and surrogates split over chunk boundaries", "        # Deal with CR LF and surrogates split over chunk boundaries", "C05.9"),
         T("stdlib-codec", REL, "self.charEncoding[0].codec_info.streamreader(self.rawStream, 'replace')", "codecs.getreader(self.charEncoding[0].name)(self.rawStream, 'replace')", "C05.8"),
